@@ -139,3 +139,17 @@ mod tests {
         assert_eq!(rng.s[3], 3193880526);
     }
 }
+
+// Verification hooks (add-only, compiled only with `--cfg rngs_verif`).
+#[cfg(rngs_verif)]
+impl Xoshiro128PlusPlus {
+    /// Verification hook: build a generator directly from its state words.
+    pub fn verif_from_state(s: [u32; 4]) -> Self {
+        Xoshiro128PlusPlus { s }
+    }
+
+    /// Verification hook: read the state words.
+    pub fn verif_state(&self) -> [u32; 4] {
+        self.s
+    }
+}
